@@ -206,7 +206,20 @@ mr('array_last_slot_k2', 2, 14, 200, 140, 4)
 # ----------------------------------------------------------------------------------------------- manifest texts
 LEVEL_TEXT = {
  'C01': 'Real ConcurrentBoundedQueue<two-word payload, VS> IR; client programs of 2-4 threads mixing push/pop/try_/push_n/pop_n/callback variants on capacities 1-2; oracle = exactly-once multiset, per-thread FIFO, fully published payload, try_ success when sequenced after enough completed operations.',
- 'C02': 'Same queue scenarios with balanced push/pop counts; STUCK query: can any thread sleep in futex_wait with no later wake (lost wake-up/deadlock) - decided for every interleaving and store-buffer/reordering behaviour of the sc/tso/arm models; spurious wake-ups not relied on.',
+ 'C02': 'Same queue scenarios with balanced push/pop counts; STUCK query: can any thread sleep in futex_wait with no later wake (lost wake-up/deadlock) - decided for every interleaving and store-buffer/reordering behaviour of the sc/tso/arm models; spurious wake-ups not relied on. The timed exclusive pop and spin-wait liveness are outside the claim (stated).',
+ 'C03': 'Real ConcurrentFixedSwissTable (SSE group loads scalarised) with a harness hasher: two emplaces of one key (one winner, same element) and emplace vs find reading the mapped value (found element fully constructed) under sc/arm. Growing set, full-table failure and growth races are outside the current scenarios (stated).',
+ 'C04': 'Real ConcurrentVector<E,0> (block size 1-2) grown by 2 threads: same index => same address, constructed value visible, ctor/dtor balance after destruction, snapshot reader vs grower, gc() vs grower with symbolic clock; RetireList driven directly with a symbolic clock (1024 s windows at 0 and across the 16-bit timestamp wrap): nothing freed < 64 s after retirement.',
+ 'C06': 'Sequential mode on the real memory_resource.cpp: concrete prefix up to a page-array boundary, then 2 symbolic (size from an 8-entry boundary table, alignment 1..512) requests with optional destructor registration; oracle: aligned, owned, disjoint, canaries intact, release() returns each page / oversize block once with its size+alignment, destructors once in reverse order, accounting zero, reusable. Shared/swiss variants outside.',
+ 'C08': 'Real FutureContext<two-word value, VS> / CountDownLatch: set_value vs on_finish (before/after/concurrent) vs get / wait_for(symbolic timeout incl. negative and the 2^16 largest values, symbolic monotone ns clock < 2^16); callbacks once with the value, get returns it, wait_for true => ready, false => time elapsed; STUCK query for get.',
+ 'C09': 'Real Epoch (x86-64 tick): reader regions (accessor, nested, moved between threads, second slot, released/unlocked accessor) vs unlink+tick+low_water_mark; a reader that still sees the old cell never observes it reclaimed; released/unlocked accessors do not hold the mark back. sc/tso/arm.',
+ 'C10': 'Sequential mode on the real keep_reclaim(): 0-2 retires, optional reader region closing at a symbolic back-off sleep, stop marker; every reclaimer exactly once, never while the region is open, before the collector returns. Concurrent collector scenarios are thorough-tier only (slow).',
+ 'C13': 'Real coroutine futex.cpp + DepositBox with hand-made coroutine frames (real await_suspend, resume through the bound executor): wake_one / wake_all / cancel / new waiter races for 2 waiters; each suspension resumed exactly once on its executor, wake_one resumes a non-cancelled waiter if one exists, non-matching value does not suspend. Task/Future awaiters are outside.',
+ 'C14': 'Real IdAllocator<uint32_t> (pop vs pop-push-pop ABA, mint race, reuse when free values exist, symbolic alloc/free history of 4 ops vs reference set incl. for_each and end()) and DepositBox (2-3 takers one winner, stale id never matches across slot reuse). Per-thread ids across thread exit are outside.',
+ 'C15': 'Real ConcurrentTransientTopic<two-word payload, VS>: publish / publish_n / close vs 1-2 consumers (consume, consume(2)), two publishers; exact sequence then end marker, payload fully visible, STUCK query for consumers. clear()/reuse outside.',
+ 'C16': 'Real ConcurrentExecutionQueue with a harness Executor (inline / parked consumer): items consumed exactly once, never two consumers at once (plain-access detector), no item stranded once every accepted consumer has run. Refused launches and join() are thorough-tier.',
+ 'C17': 'Real CachedPageAllocator over a recording upstream: ownership detector (a page is never held twice / returned upstream twice / returned while held) and conservation upstream_out - upstream_in == held + cached. Object pool, batch/counting allocators outside.',
+ 'C18': 'Sequential mode on the real ConcurrentTransientHashSet: default / sized(4,16) construction, N inserts with duplicates (N symbolic <= 6, and exactly 34 to cross two chained tables), then size/empty/iteration/find/contains vs a reference bitmap. clear/reserve/rehash/copy/move/swap histories outside.',
+ 'C20': 'Sequential mode: real LogStreamBuffer + LogEntry::append_to_iovec for every length <= 40 (page 16): scatter list == bytes written, every page once; real AsyncFileAppender write() x3 with symbolic entry lengths 0..2, stop marker, real keep_writing(): file == concatenation, pages returned. Concurrent appender scenarios thorough-tier.',
 }
 LEVEL_NOTE = {}
 TECH_EXTRA = {}
